@@ -58,7 +58,7 @@ def strategy(tier):
         kind = draw(st.sampled_from(["conv_radius", "conv_radius", "conv_kernel", "conv_kernel", "conv_kernel",
                                      "density", "density"]))
         c = {"dom": dom, "kind": kind, "payload_seed": draw(SEED),
-             "field": draw(st.sampled_from(["rand", "rand", "plateau", "delta", "signed", "const"]))}
+             "field": draw(st.sampled_from(["rand", "rand", "plateau", "delta", "signed", "const", "int01", "int"]))}
         rmax = 1.5 * max(n)
         radius = draw(st.one_of(st.sampled_from([0.3, 1.0, 1.5, 2.0, 3.0]),
                                 st.floats(0.3, max(rmax, 0.4), allow_nan=False).map(lambda v: round(v, 3))))
@@ -153,6 +153,10 @@ def _field(kind, nel, rng):
         return rng.standard_normal(nel)
     if kind == "const":
         return np.full(nel, float(rng.integers(-2, 5)) / 4.0 + 0.3)
+    if kind == "int01":          # an integer-typed black-and-white design (e.g. np.ones(nel, dtype=int) with holes)
+        return (rng.random(nel) > 0.4).astype(np.int64)
+    if kind == "int":            # integer-typed field with a few levels
+        return rng.integers(-2, 4, nel).astype(np.int64)
     if kind == "delta":
         x = np.zeros(nel)
         x[rng.integers(0, nel)] = 1.0
